@@ -37,7 +37,7 @@ TraceInit ==
 
 TraceReset ==
     /\ Is("reset") /\ Step /\ bad' = bad /\ mh' = [v \in {} |-> ""]
-    /\ kr' = Ev.kr /\ ke' = Ev.ke
+    /\ kr' = Ev.kr /\ ke' = Ev.ke /\ spal' = Ev.spal
     /\ disk' = [s \in Stores |-> [v \in {} |-> 0]]
     /\ cinfo' = [v \in {} |-> 0]
     /\ latest' = 0
@@ -130,6 +130,11 @@ TraceQuery ==
                  <<(Ev.proof /\ r.proof) => got = ver, "model:verifying-heights-differ">>,
                  <<Ev.proof => Len(Ev.forged) = 0, "proof-proves-something-else">> >>)
 
+(* a durable write of Commit that is none of the protocol's (logged for the write-log checks of
+   C13): no step of the model, the state does not change *)
+TraceOther ==
+    /\ Is("otherwrite") /\ Step /\ mh' = mh /\ bad' = bad /\ UNCHANGED vars
+
 TraceRestart ==
     /\ Is("restart") /\ Step /\ mh' = mh /\ bad' = bad
     /\ Idle /\ Crash
@@ -140,7 +145,7 @@ TraceDone ==
 
 TraceNext ==
     \/ TraceReset \/ TraceOpen \/ TraceWrite \/ TraceCommitStart \/ TraceSave \/ TracePrune
-    \/ TraceTCommit \/ TraceFlush \/ TraceLoad \/ TraceQuery \/ TraceRestart \/ TraceDone
+    \/ TraceTCommit \/ TraceFlush \/ TraceLoad \/ TraceQuery \/ TraceRestart \/ TraceOther \/ TraceDone
 
 TraceSpec == TraceInit /\ [][TraceNext]_tvars
 =============================================================================
